@@ -142,6 +142,13 @@ def dispatch (op : String) (args obs : List String) : Outcome :=
                    prop := if b == "bad=0" then .ok else .bad s!"C07 concurrently built messages corrupted {b} ; C03 concurrently built messages corrupted {b}",
                    branch := s!"pkconc.{n}" }
      | _ => { corr := .bad "bad-line" })
+  | "CIDS" =>
+    match opCIDS args obs with
+    | some d =>
+      { corr := match d.corr with | none => .ok | some w => .bad w,
+        prop := if d.fails.isEmpty then .ok else .bad (" ; ".intercalate d.fails),
+        branch := d.branch }
+    | none => { corr := .bad "bad-line" }
   | "CID" =>
     match opCID args obs with
     | some d =>
